@@ -6,6 +6,7 @@ import RichchkModel.Model.Dump
 import RichchkModel.Generated.Layouts
 import RichchkModel.Spec.Layouts
 import RichchkModel.Generated.Codecs
+import RichchkModel.Generated.TrigTable
 open Richchk
 
 def showR {α} (f : α → String) : R α → String
@@ -115,6 +116,16 @@ def opHpEnc (numStr denStr : String) : String :=
   | some num, some den => if den = 0 then "bad-op" else toString (num * Generated.hpEncodeMultiplier / den)
   | _, _ => "bad-op"
 
+def opTrigRow (kind idStr : String) : String :=
+  match idStr.toNat? with
+  | some n =>
+    let tbl := if kind = "a" then Generated.actionTable else Generated.conditionTable
+    match tbl.find? (·.id = n) with
+    | some r => "OK " ++ r.member ++ " D[" ++ ",".intercalate (r.decode.map fun d => d.arg ++ "<" ++ d.codec ++ "@" ++ d.field) ++
+        "] E[" ++ ",".intercalate (r.encode.filterMap fun e => if e.codec = "zero" then none else some (e.field ++ "<" ++ e.codec ++ ":" ++ e.arg)) ++ "]"
+    | none => "NONE"
+  | none => "bad-op"
+
 def step (line : String) : String :=
   match line.trimAscii.toString.splitOn " " with
   | ["dec", h] => opDec h
@@ -123,6 +134,8 @@ def step (line : String) : String :=
   | ["secrt", n, h] => opSecRt n h
   | ["spec-layouts"] => jsonTable Spec.specTable
   | ["flags", nm, n] => opFlags nm n
+  | ["trigrow", k, n] => opTrigRow k n
+  | ["trigids", k] => toString ((if k = "a" then Generated.actionTable else Generated.conditionTable).map (·.id))
   | ["flagsenc", nm, b] => opFlagsEnc nm b
   | ["enum", nm, n] => opEnum nm n
   | ["ai", v] => opAi v
